@@ -34,16 +34,60 @@ func scannerFuncs(p *core.Program) []*ssa.Function {
 }
 
 // thresholdKind classifies the bound operand of an admission comparison.
-func thresholdKind(v ssa.Value) string {
+func thresholdKind(p *core.Program, v ssa.Value) string {
 	v = core.Resolve(v)
 	if f, ok := core.ConstFloat(v); ok {
 		return fmt.Sprintf("const:%g", f)
 	}
-	if base, ok := core.FieldLoad(v, "matchThreshold"); ok {
-		_ = base
+	if base, name, ok := fieldLoadBy(v, isFloat64); ok && scannerFloatRoles(p)[core.Deref(base.Type()).String()].thr == name {
 		return "field:matchThreshold"
 	}
 	return "other:" + core.Canon(v)
+}
+
+func isFloat64(t types.Type) bool {
+	b, ok := t.Underlying().(*types.Basic)
+	return ok && b.Kind() == types.Float64
+}
+
+// scanFields: the current names of a scanner's two float64 settings — the threshold is the field that the exported
+// SetThreshold method stores its argument into, the entropy tolerance is the other one.
+type scanFields struct{ thr, tol string }
+
+var scanFieldCache map[string]scanFields
+
+func scannerFloatRoles(p *core.Program) map[string]scanFields {
+	if scanFieldCache != nil {
+		return scanFieldCache
+	}
+	scanFieldCache = map[string]scanFields{}
+	for _, fn := range scannerFuncs(p) {
+		if fn.Name() != "SetThreshold" || fn.Signature.Recv() == nil || len(fn.Params) < 2 {
+			continue
+		}
+		core.InstrsOf(fn, func(in ssa.Instruction) {
+			st, ok := in.(*ssa.Store)
+			if !ok {
+				return
+			}
+			fa, ok := st.Addr.(*ssa.FieldAddr)
+			if !ok || !isFloat64(deref1(fa.Type())) {
+				return
+			}
+			for _, o := range core.Origins(st.Val) {
+				if o == ssa.Value(fn.Params[1]) {
+					sf := scanFields{thr: core.FieldName(fa.X.Type(), fa.Field)}
+					for _, f := range structFieldsBy(fa.X.Type(), isFloat64) {
+						if f != sf.thr {
+							sf.tol = f
+						}
+					}
+					scanFieldCache[core.Deref(fa.X.Type()).String()] = sf
+				}
+			}
+		})
+	}
+	return scanFieldCache
 }
 
 // confidenceOf reports whether v reads the Confidence of the ScanResult held in alloc/value res.
@@ -165,7 +209,7 @@ func c08(r *core.Run) {
 				if _, isConf := core.FieldLoad(core.Resolve(t), "Confidence"); isConf {
 					continue // best-so-far comparison between two results, not the admission bound
 				}
-				kinds[thresholdKind(t)] = true
+				kinds[thresholdKind(p, t)] = true
 			}
 			if len(kinds) == 0 {
 				r.Fail("C08.FILTER", fnm+"#admit", s.Pos(), "a match result is admitted without a comparison against the threshold")
@@ -396,7 +440,7 @@ func c08Mono(r *core.Run) {
 				return
 			}
 			fa, ok := u.X.(*ssa.FieldAddr)
-			if !ok || core.FieldName(fa.X.Type(), fa.Field) != "matchThreshold" {
+			if !ok || !isFloat64(deref1(fa.Type())) || scannerFloatRoles(p)[core.Deref(fa.X.Type()).String()].thr != core.FieldName(fa.X.Type(), fa.Field) {
 				return
 			}
 			n++
@@ -861,9 +905,15 @@ func c08Subset(r *core.Run, adms []admission) {
 				} else {
 					// JSON: stated differences — tolerance argument 0 and cut-off 0.99
 					ne := strings.ReplaceAll(e, "0.99", "<T>")
-					nf := strings.ReplaceAll(f, "<jsondb.Scanner>.matchThreshold", "<T>")
+					var jf scanFields
+					for tn, sf := range scannerFloatRoles(r.P) {
+						if strings.HasSuffix(tn, "jsondb.Scanner") {
+							jf = sf
+						}
+					}
+					nf := strings.ReplaceAll(f, "<jsondb.Scanner>."+jf.thr, "<T>")
 					ne = strings.ReplaceAll(ne, ",0)", ",<tol>)")
-					nf = strings.ReplaceAll(nf, ",<jsondb.Scanner>.entropyTolerance)", ",<tol>)")
+					nf = strings.ReplaceAll(nf, ",<jsondb.Scanner>."+jf.tol+")", ",<tol>)")
 					if ne == nf {
 						matched = true
 					}
